@@ -918,6 +918,7 @@ impl<'a> Parser<'a> {
         let handler_catch_arg_pos = self.chunk().code.len();
         self.emit_bytes([0xff, 0xff]);
         self.emit_bytes([0xff, 0xff]);
+        self.emit_bytes([0xff, 0xff]);
         let post_handler_args_ip_pos = self.chunk().code.len();
 
         self.consume(TokenKind::LeftBrace, "Expected '{' after 'try'.");
@@ -961,6 +962,7 @@ impl<'a> Parser<'a> {
             self.end_scope();
         }
         self.emit_byte(OpCode::EndFinally as u8);
+        self.patch_offset_at(handler_catch_arg_pos + 4, post_handler_args_ip_pos);
 
         if !have_catch && !have_finally {
             self.error("Expected 'catch' or 'finally' after 'try' block.");
